@@ -163,7 +163,7 @@ pub fn build() -> Property {
     Property {
         id: "C08",
         rule: "G_frame well-framed streams (any header values outside RDH0, payload sizes 0..10000, packet counts incl. 99..101 / 199..201 / 300, colliding link / FEE / stave populations; every RDH0 passes the documented pre-check because any packet may \
-               become the first packet of an output) x filter kind {link, FEE, layer/stave} x destination {-o file, -o stdout, default stdout} x source {file, pipe}. The tool is run once per distinct filter value present plus absent values, \
+               become the first packet of an output) x filter kind {link, FEE, layer/stave} x destination {-o file, -o stdout, default stdout} (for every other input the destination file exists beforehand and is longer than the output) x source {file, pipe}. The tool is run once per distinct filter value present plus absent values, \
                then again on every output. Oracle (independent walker + predicate): output == concatenation in input order of exactly the matching packets; the outputs of all distinct values cover every packet exactly once; every output walks as a \
                well-framed chain; filter(output) == output; rdhs_filtered == number of matching packets. Non-trivial = >= 2 distinct values present and a non-empty payload; distinct by stream hash x kind x destination x source.",
         assumptions: vec!["every packet's RDH0 passes the pre-check and carries a known system id (a derived file starts with an arbitrary packet of the input)".into()],
